@@ -168,14 +168,23 @@ pub struct Gadget {
 /// allocate an element with exactly the given representation (two witness coordinates, no constraints)
 pub fn raw(cs: &CS, e: &El) -> Result<ElementVar, SynthesisError> {
     let e = *e;
-    ElementVar::new_variable_omit_prime_order_check(cs.clone(), || Ok(e), AllocationMode::Witness)
+    let before = cs.num_witness_variables();
+    let r = ElementVar::new_variable_omit_prime_order_check(cs.clone(), || Ok(e), AllocationMode::Witness);
+    crate::tamper::note_inputs(before, cs.num_witness_variables());
+    r
 }
 pub fn wf(cs: &CS, x: &Fq) -> Result<FqVar, SynthesisError> {
     let x = *x;
-    FqVar::new_witness(cs.clone(), || Ok(x))
+    let before = cs.num_witness_variables();
+    let r = FqVar::new_witness(cs.clone(), || Ok(x));
+    crate::tamper::note_inputs(before, cs.num_witness_variables());
+    r
 }
 pub fn wb(cs: &CS, x: bool) -> Result<Boolean<Fq>, SynthesisError> {
-    Boolean::new_witness(cs.clone(), || Ok(x))
+    let before = cs.num_witness_variables();
+    let r = Boolean::new_witness(cs.clone(), || Ok(x));
+    crate::tamper::note_inputs(before, cs.num_witness_variables());
+    r
 }
 
 fn e1(i: &Inp) -> El {
@@ -211,7 +220,10 @@ fn f2(i: &Inp) -> Fq {
 /// lazily-encoded element variable (state `Encoding`): nothing is decoded until forced
 pub fn lazy_w(cs: &CS, x: &Fq) -> Result<ElementVar, SynthesisError> {
     let x = *x;
-    AllocVar::<Fq, Fq>::new_witness(cs.clone(), || Ok(x))
+    let before = cs.num_witness_variables();
+    let r = AllocVar::<Fq, Fq>::new_witness(cs.clone(), || Ok(x));
+    crate::tamper::note_inputs(before, cs.num_witness_variables());
+    r
 }
 fn native_pair(i: &Inp) -> Option<(El, El)> {
     Some((dec(&f1(i).to_bytes_le()).ok()?, dec(&f2(i).to_bytes_le()).ok()?))
